@@ -420,3 +420,76 @@ Proof. intros H. apply inbound_never_panics; [exact H|exact state0_ok]. Qed.
 Lemma short_ipv4_dropped c st mac v : zlength (vfirst v) < 20 ->
   nic_deliver c st mac pIPv4 v = Some (st, evs [cIPReceived; cMalformed] kShortNet).
 Proof. intros H. unfold nic_deliver. cbn. destruct (zlength (vfirst v) <? 20) eqn:E; [reflexivity|lia]. Qed.
+
+(* ------------------------------------------------------------------ the views carry exactly the bytes
+   (the "does not corrupt" side of the buffer walking: trimming and capping a list of views is
+   skipn / firstn on the byte string, and fdbased's views are the frame cut at the buffer sizes) *)
+Lemma vsize_vbytes v : vsize v = zlength (vbytes v).
+Proof.
+  induction v as [|x t IH]; [reflexivity|]. cbn [vsize fold_right vbytes concat].
+  change (fold_right (fun x a => zlength x + a) 0 t) with (vsize t). rewrite IH.
+  unfold zlength. rewrite app_length. lia.
+Qed.
+
+Lemma trimFront_bytes v : forall n, 0 <= n -> vbytes (vv_trimFront v n) = skipn (Z.to_nat n) (vbytes v).
+Proof.
+  induction v as [|x t IH]; intros n Hn; cbn [vv_trimFront vbytes concat]; [rewrite skipn_nil; reflexivity|].
+  destruct (n <=? 0) eqn:E0.
+  { assert (n = 0) by lia. subst n. reflexivity. }
+  destruct (n <? zlength x) eqn:E1.
+  - cbn [concat]. unfold zlength in E1. rewrite skipn_app.
+    replace (Z.to_nat n - length x)%nat with 0%nat by lia. reflexivity.
+  - unfold zlength in *. change (concat (vv_trimFront t (n - Z.of_nat (length x)))) with (vbytes (vv_trimFront t (n - Z.of_nat (length x)))).
+    rewrite IH by lia. rewrite skipn_app. rewrite (skipn_all2 x) by lia. cbn [app].
+    f_equal. lia.
+Qed.
+
+Lemma cap_loop_bytes v : forall n, 0 <= n <= vsize v -> vbytes (cap_loop v n) = firstn (Z.to_nat n) (vbytes v).
+Proof.
+  induction v as [|x t IH]; intros n Hn; cbn [cap_loop vbytes concat].
+  { cbn in Hn. rewrite firstn_nil. reflexivity. }
+  cbn [vsize fold_right] in Hn. change (fold_right (fun x a => zlength x + a) 0 t) with (vsize t) in Hn.
+  unfold zlength in *. destruct (n <=? Z.of_nat (length x)) eqn:E.
+  - destruct (n =? 0) eqn:E0.
+    + assert (n = 0) by lia. subst n. reflexivity.
+    + cbn [concat]. rewrite app_nil_r. rewrite firstn_app.
+      replace (Z.to_nat n - length x)%nat with 0%nat by lia. cbn [firstn]. rewrite app_nil_r. reflexivity.
+  - cbn [concat]. change (concat (cap_loop t (n - Z.of_nat (length x)))) with (vbytes (cap_loop t (n - Z.of_nat (length x)))).
+    rewrite IH by lia. rewrite firstn_app. rewrite (firstn_all2 x) by lia.
+    f_equal. f_equal. lia.
+Qed.
+
+Lemma capLength_bytes v n : 0 <= n <= vsize v -> vbytes (vv_capLength v n) = firstn (Z.to_nat n) (vbytes v).
+Proof.
+  intros H. unfold vv_capLength. destruct (n <? 0) eqn:E0; [lia|].
+  destruct (vsize v <? n) eqn:E1; [lia|]. apply cap_loop_bytes. exact H.
+Qed.
+
+Lemma split_views_bytes cfg : forall b, Forall (fun s => 0 <= s) cfg ->
+  vbytes (split_views cfg b) = firstn (Z.to_nat (fold_right Z.add 0 cfg)) b.
+Proof.
+  induction cfg as [|s t IH]; intros b Hc; cbn [split_views vbytes concat fold_right].
+  { reflexivity. }
+  inversion Hc as [|? ? Hs Ht]; subst.
+  destruct b as [|x b']; [rewrite firstn_nil; reflexivity|].
+  cbn [concat]. change (concat (split_views t (skipn (Z.to_nat s) (x :: b')))) with (vbytes (split_views t (skipn (Z.to_nat s) (x :: b')))).
+  rewrite IH by exact Ht.
+  assert (Hsum : 0 <= fold_right Z.add 0 t).
+  { clear -Ht. induction Ht as [|a l Ha Hl IHl]; cbn [fold_right]; lia. }
+  rewrite Z2Nat.inj_add by lia.
+  generalize (x :: b') as l. generalize (Z.to_nat s) as i. generalize (Z.to_nat (fold_right Z.add 0 t)) as j.
+  clear. intros j i l. revert i. induction l as [|a l IHl]; intros i.
+  - rewrite skipn_nil, !firstn_nil. reflexivity.
+  - destruct i as [|i]; [reflexivity|]. cbn [firstn skipn Nat.add app]. f_equal. apply IHl.
+Qed.
+
+(* what fdbased hands to the NIC: the frame without its Ethernet header, nothing lost or added
+   (frames up to the total buffer size, 65408 bytes) *)
+Theorem fd_views_carry_the_frame frame : zlength frame <= 65408 ->
+  vbytes (vv_trimFront (split_views BufConfig frame) 14) = skipn 14 frame.
+Proof.
+  intros H. rewrite trimFront_bytes by lia. rewrite split_views_bytes.
+  - change (fold_right Z.add 0 BufConfig) with 65408. rewrite firstn_all2; [reflexivity|].
+    unfold zlength in H. lia.
+  - unfold BufConfig. repeat constructor; lia.
+Qed.
